@@ -59,6 +59,11 @@ def gen_cases(tier, seed):
         cases.append({"type": "driver", "rot": True, "do_sr": True, "wt": wt, "ad_mode": mode, "s": int(rng.integers(1 << 30)),
                       "group": "drv-%s-%s" % (mode, wt), "cost": 70})
     # reproducibility "for a given seed" through the documented option handling (mpi_jax._prep_afqmc), including the seed value 0
+    # "asked for the same block structure returns the same energy" also when the block structure of a sampler OBJECT is changed between
+    # calls (samplers are plain mutable dataclasses hashed by their fields; they are static arguments of the jitted entry points)
+    for rep in range(2 if q else 6):
+        cases.append({"type": "mutate", "wt": "uhf" if rep % 2 == 0 else "rhf", "entry": ["plain", "ad_nosr_norot", "ad", "ad_norot", "ad_nosr"][rep % 5],
+                      "s": int(rng.integers(1 << 30)), "group": "mut-%d" % rep, "cost": 30})
     for rep in range(1 if q else 4):
         cases.append({"type": "seedopt", "wt": "uhf" if rep % 2 == 0 else "rhf", "s": int(rng.integers(1 << 30)), "group": "seedopt-%d" % rep, "cost": 40})
     for wt in (("uhf",) if q else ("rhf", "uhf")):
@@ -517,6 +522,33 @@ def call_entry_obs(entry, smp, S, hd, wd, pd, obs, coupling=0.0):
     return fn(S["ham"], hd, coupling, obs, S["prop"], pd, S["trial"], wd)
 
 
+def run_mutate(case):
+    from jax import random
+
+    from ad_afqmc import sampling
+
+    rng = np.random.default_rng(case["s"])
+    wt = case["wt"]
+    S = build(wt, rng, 6, 0.03)
+    shapes = [(2, 2, 1), (2, 1, 1), (4, 1, 2)] if case["s"] % 2 else [(3, 1, 2), (3, 2, 2), (2, 2, 1)]
+    smp = sampling.sampler(n_prop_steps=shapes[0][0], n_ene_blocks=shapes[0][1], n_sr_blocks=shapes[0][2], n_blocks=1)
+    events = []
+    key = "C12/mutated-sampler/%s/%s" % (case["entry"], wt)
+    for (a_, b_, c_) in shapes:
+        smp.n_prop_steps, smp.n_ene_blocks, smp.n_sr_blocks = a_, b_, c_        # the SAME object, new block structure
+        fresh = sampling.sampler(n_prop_steps=a_, n_ene_blocks=b_, n_sr_blocks=c_, n_blocks=1)
+        outs = []
+        for which in (smp, fresh):
+            pd = S["prop"].init_prop_data(S["trial"], S["wave_data"], S["ham_data"], None)
+            pd["key"] = random.PRNGKey(case["s"] % 65521)
+            e, pd = call_entry(case["entry"], which, S, pd)
+            outs.append((float(e), np.asarray(pd["weights"])))
+        events.append(judge("mutated-sampler/same-as-a-fresh-sampler-with-that-block-structure",
+                            max(abs(outs[0][0] - outs[1][0]), float(np.max(np.abs(outs[0][1] - outs[1][1])))), 1e-12, key, shape=[a_, b_, c_],
+                            reused=outs[0][0], fresh=outs[1][0]))
+    return {"events": events, "nontrivial": True, "sample": {"entry": case["entry"], "shapes": shapes}, "counters": {"entry_calls": 2 * len(shapes)}}
+
+
 def run_seedopt(case):
     """options -> mpi_jax._prep_afqmc -> driver.afqmc: the seed the user gives (0 included) is the seed that is used, and two runs with
     it give bit-identical samples whatever the state of NumPy's global generator"""
@@ -577,6 +609,8 @@ def run_seedopt(case):
 
 
 def run_case(case):
+    if case["type"] == "mutate":
+        return run_mutate(case)
     if case["type"] == "seedopt":
         return run_seedopt(case)
     if case["type"] == "driver":
